@@ -139,6 +139,16 @@ var faults = []fault{
 	{"living-person", insertAfter("1 FAMC @F1@", "0 @I4@ INDI", "1 NAME Liv /Ing/", "1 BIRT", "2 DATE 1 Jan 1990")},
 	{"name-equals-place", replaceLine("1 NAME Cy /Ash/", "1 NAME Oldtown /England/")},
 	{"place-only-commas", replaceLine("2 PLAC Oldtown, England", "2 PLAC , ,")},
+	{"date-empty", replaceLine("2 DATE 1 Jan 1872", "2 DATE")},
+	// the husband has neither a birth date nor a death (alive or not is then decided from his relatives, if at all)
+	{"husb-no-dates", func(l []string) []string {
+		return dropLine("2 DATE 1 Jan 1870")(dropLine("1 DEAT")(dropLine("2 DATE 1 Jan 1800")(l)))
+	}},
+	{"only-child-is-own-parent", replaceLine("1 CHIL @I3@", "1 CHIL @I1@")},
+	// a second marriage of the husband whose partner reference does not resolve
+	{"second-family-dangling-wife", func(l []string) []string {
+		return insertAfter("2 DATE 1 Jun 1825", "0 @F2@ FAM", "1 HUSB @I1@", "1 WIFE @I9@")(insertAfter("1 FAMS @F1@", "1 FAMS @F2@")(l))
+	}},
 }
 
 func document(set []int) string {
